@@ -76,6 +76,7 @@ type ContractDB struct {
 	Axioms []*SpecDef
 	Order []*Contract
 	Views map[string][2]string
+	Pure  []string
 }
 
 var clauseKinds = map[string]bool{
@@ -139,6 +140,11 @@ func parseContractFile(db *ContractDB, path string, defaultPkg string) error {
 			db.ByKey[cur.FullKey()] = cur
 			db.Order = append(db.Order, cur)
 			last, lastDef = nil, nil
+			continue
+		case "pure":
+			// pure <name or prefix*>: calls have no effect on memory the contracts talk about; results are unconstrained
+			db.Pure = append(db.Pure, strings.TrimSpace(rest))
+			cur, last, lastDef = nil, nil, nil
 			continue
 		case "readerview":
 			// readerview <pkg.Type> <reader field> <counter field>: *Type used as io.Reader delegates to the field
